@@ -87,3 +87,22 @@ func (ex *Exec) mapAccessObligations(fr *Frame, st *State, in ssa.Instruction) {
 		ex.obligeSpec(st, "mapaccess", ex.siteWhat(in)+":"+cl.Label, cond, cl, in)
 	}
 }
+
+// atObligations: typestate obligations attached to every instruction of a kind.
+func (ex *Exec) atObligations(fr *Frame, st *State, kind string, in ssa.Instruction, vars map[string]*Value) {
+	c := fr.contract
+	if c == nil {
+		c = ex.prog.contractFor(fr.fn)
+	}
+	if c == nil || len(c.At[kind]) == 0 || ex.discover != nil {
+		return
+	}
+	for _, cl := range c.At[kind] {
+		env := ex.specEnv(fr, st, in.Pos())
+		for k, v := range vars {
+			env.vars[k] = v
+		}
+		cond := ex.evalSpecBool(env, cl.Expr)
+		ex.obligeSpec(st, "at-"+kind, ex.siteWhat(in)+":"+cl.Label, cond, cl, in)
+	}
+}
